@@ -175,7 +175,8 @@ def _features(m, spec, desc, ctx, rng, feat):
             req = {'spike_ids': ids.tolist(), 'channel_ids': ch.tolist(), 'store': feat}
             ctx.count(1, key=hkey(tuple(desc['seed']), q, perm), nontrivial=(perm != tuple(sorted(perm))) or rows is not None,
                       cell=('get_features', feat, 'k%d' % k))
-            r = call(m.get_features, ids, ch)
+            form = (q + len(perm)) % 3            # ids / channels as arrays or plain lists
+            r = call(m.get_features, ids if form != 1 else ids.tolist(), ch if form != 2 else ch.tolist())
             f = {'route': 'get_features', 'store': feat}
             if not r.ok:
                 ctx.violation('raised', dict(desc, request=req), 'get_features raised %r' % r.exc, dict(f, exc=r.exc_name), tb=r.tb)
